@@ -137,6 +137,7 @@ var vhSnapLineNorm, vhSnapFollow = true, true // the switches the harness handed
 
 // what the command stub "prints": CRLF line ends, a lone CR, a TAB - the capture must come back byte for byte
 const vhStdout, vhStderr = "OUT\r\nsecond line\r\n", "ERR\r\n\twarn\rX"
+
 var vhExitStatus = 0
 
 func vhRecordArtifacts(paths []string, hashAlgorithms []string, gitignorePatterns []string, lStripPaths []string, lineNormalization bool, followSymlinkDirs bool) (map[string]HashObj, error) {
@@ -554,12 +555,15 @@ func vh_C16_calls(a []int) {
 	}
 	_, e6 := SubstituteParameters(c.layout, map[string]string{"P": "v"})
 	_, e7 := UnpackRule([]string{"ALLOW", "*"})
+	// ... and rules that are refused: unknown type, wrong MATCH form, too short
+	bad := [][]string{{"BOGUS", "x"}, {"MATCH", "x", "WITH", "PRODUCTS"}, {"ALLOW"}}[vChoice("badrule", 3)]
+	_, e7b := UnpackRule(bad)
 	env := &Envelope{}
 	e8 := env.SetPayload(Link{Type: "link", Name: "n", ByProducts: map[string]interface{}{"stdout": vPick("stdout", "plain", "with\nnewline")}})
 	vhFiles = map[string][]byte{}
 	e9 := md.Dump("c16.link")
 	_, e10 := LoadMetadata("c16.link")
-	vObserve("calls", e1 == nil, e1b == nil, e2 == nil, e3 == nil, e4 == nil, e5 == nil, e6 == nil, e7 == nil, e8 == nil, e9 == nil, e10 == nil)
+	vObserve("calls", e1 == nil, e1b == nil, e2 == nil, e3 == nil, e4 == nil, e5 == nil, e6 == nil, e7 == nil, e7b == nil, e8 == nil, e9 == nil, e10 == nil)
 	vReach("C16.end")
 }
 
